@@ -621,7 +621,7 @@ func TestVerif_C18_kernels(t *testing.T) {
 		}
 	}
 
-	verifkit.RapidSetup(10000, 150000)
+	verifkit.RapidSetup(16000, 2000000)
 	defer func() { col.Extra("max_observed_delta_over_tolerance_f32", c18MaxRatio) }()
 	gen := c18GenKCase(names)
 	rapid.Check(t, func(rt *rapid.T) {
